@@ -239,6 +239,10 @@ func (g *gen) base() {
 		in.State = []uint8{stInvite, stCandidate, stVerified, stKilled}[g.pick(4)]
 		in.Stake = g.bal()
 	}
+	if g.chance(0.15) { // coins "burnt" by transfers to the zero address sit in its account
+		g.A(0).Bal = g.bal()
+		g.A(0).Epoch = cs.G.Epoch
+	}
 	for k := 0; k < g.pick(3); k++ {
 		cs.G.Status = append(cs.G.Status, g.key())
 	}
@@ -888,8 +892,41 @@ func (g *gen) perturbTx(tx *TxD) string {
 		}
 		return "payload"
 	case 7:
-		tx.Key = []int{0, g.key()}[g.pick(2)]
-		return "signer"
+		switch g.pick(5) {
+		case 0:
+			tx.Key = 0
+			return "unsigned"
+		case 1:
+			tx.Key = g.key()
+			return "signer"
+		case 2, 3:
+			// signature bytes present but unrecoverable; the zero address (what Sender answers then) holds coins and the
+			// transaction carries the zero account's next nonce, so that only the signature test stands in the way
+			tx.BadSig = []string{"recid9", "zero65", "short10", "rzero", "shigh", "len66"}[g.pick(6)]
+			z := g.A(0)
+			z.Epoch = g.cs.G.Epoch
+			z.Nonce = []uint32{0, 3}[g.pick(2)]
+			tx.Nonce, tx.Epoch = z.Nonce+1, g.cs.G.Epoch
+			need := new(big.Int).Add(bz(tx.Amount), new(big.Int).Add(bz(tx.Tips), bz(tx.MaxFee)))
+			if need.Sign() < 0 {
+				need = bi(0)
+			}
+			z.Bal = new(big.Int).Add(need, dna(int64(g.pick(3))))
+			return "badSig:" + tx.BadSig
+		default:
+			// re-signed object: first signed by A (sender looked up), then the object is signed again by the payer B;
+			// A is as able to pay as B, so a node that charged A would not stumble over nonce or funds
+			if tx.Key >= 1 {
+				a := g.other(tx.Key)
+				tx.PreKey = a
+				g.A(a).Nonce, g.A(a).Epoch = g.A(tx.Key).Nonce, g.A(tx.Key).Epoch
+				if g.A(a).Bal.Cmp(g.A(tx.Key).Bal) < 0 {
+					g.A(a).Bal = new(big.Int).Set(g.A(tx.Key).Bal)
+				}
+				g.I(a).State, g.I(a).Invites = g.I(tx.Key).State, g.I(tx.Key).Invites
+				return "resigned"
+			}
+		}
 	case 8:
 		if tx.Type == types.SubmitFlipTx || tx.Type == types.DeleteFlipTx {
 			in := g.I(g.key())
